@@ -203,16 +203,20 @@ section
 variable [Num α]
 
 theorem saveSbm_eq (h : Header) (s : Sbm α) (f : File α) (hs : saveSbm h s = some f) :
-    ∃ tbl, saveTable 0 s.composition [s.particle] [s.K_T0] = some tbl ∧
+    ∃ tbl, s.K_T0_0d = false ∧ saveTable 0 s.composition [s.particle] [s.K_T0] = some tbl ∧
       f = (header h).add ((sbmOwn s).add (tbl.toFile 0)) := by
   unfold saveSbm at hs
-  obtain ⟨tbl, h1, h2⟩ := Option.map_eq_some_iff.mp hs
-  exact ⟨tbl, h1, h2.symm⟩
+  cases h0 : s.K_T0_0d with
+  | true => simp [h0] at hs
+  | false =>
+    simp only [h0, Bool.false_eq_true, if_false] at hs
+    obtain ⟨tbl, h1, h2⟩ := Option.map_eq_some_iff.mp hs
+    exact ⟨tbl, rfl, h1, h2.symm⟩
 
 theorem sbm_arrays (h : Header) (s : Sbm α) (f : File α) (hs : saveSbm h s = some f)
     (hy : ∀ row ∈ s.y, row.length = (s.y.headD []).length) (hlen : s.y.length = s.t.length) :
     (loadSbm f).t = s.t ∧ (loadSbm f).y = s.y ∧ (loadSbm f).K_T0 = s.K_T0 ∧ (loadSbm f).delta_t = s.delta_t := by
-  obtain ⟨tbl, _, rfl⟩ := saveSbm_eq h s f hs
+  obtain ⟨tbl, _, _, rfl⟩ := saveSbm_eq h s f hs
   have ht : (List.map valF (List.map some s.t)) = s.t := by
     rw [List.map_map]; simp [Function.comp_def, valF]
   refine ⟨?_, ?_, ?_, ?_⟩
